@@ -194,6 +194,8 @@ for t, ct in ITYPES:
     U('C02', 'c02.op.%s_f' % ct, '_ZN9fixedmathmlI%sNS_7fixed_tEvEEDaT_T0_' % t, kr[1], kr[2], replace=[ks], cxx='($1 * $2)', backends=MULBE, timeout=900)
     U('C02', 'c02.assign.%s' % ct, '_ZN9fixedmathmLI%svEERNS_7fixed_tES2_T_' % t, ks[1], ks[2], replace=[ks], cxx='($1 *= $2)', backends=MULBE, timeout=900)
 
+# self-check of the INT executor on the out-parameter / early-return shape the portable branch has (see spec/common.hpp)
+U('C02', 'c02.int_selfcheck.outparam', 'lem_int_outparam', 'pre_anyl', None, lemma=True, cxx='lem_int_outparam($1)', engine='int', timeout=60)
 # portable (non-GNU) branch of checked_multiply, compiled through the verification hook
 U('C02', 'c02.mul.kernel.portable', MULI, 'pre_c01', 'post_mul', cfg='portable', cxx='fixedmath::detail::fixed_multiplyi($1,$2)', engine='int', timeout=300)
 for t, ct in ITYPES:
